@@ -143,6 +143,33 @@ def ev(e, env):
                     gen(k + 1, env3)
         gen(0, env)
         return out
+    if isinstance(e, ast.Call) and isinstance(e.func, ast.Name) and e.func.id == 'isinstance' and len(e.args) == 2 and not e.keywords:
+        types_ = {'str': str, 'tuple': tuple, 'list': list, 'int': int, 'float': float, 'dict': dict, 'bool': bool}
+        t = e.args[1]
+        names = [x.id for x in t.elts] if isinstance(t, ast.Tuple) and all(isinstance(x, ast.Name) for x in t.elts) else ([t.id] if isinstance(t, ast.Name) else None)
+        if names and all(n in types_ for n in names):
+            return isinstance(ev(e.args[0], env), tuple(types_[n] for n in names))
+        raise ModelError(f'minieval: isinstance with {ast.unparse(t)}')
+    if isinstance(e, ast.Call) and isinstance(e.func, ast.Name) and e.func.id == 'defaultdict' and len(e.args) == 1 and isinstance(e.args[0], ast.Name) \
+            and e.args[0].id in ('list', 'dict', 'int', 'set') and not e.keywords:
+        import collections
+        return collections.defaultdict({'list': list, 'dict': dict, 'int': int, 'set': set}[e.args[0].id])
+    if isinstance(e, ast.Call) and isinstance(e.func, ast.Name) and e.func.id == 'product' and not e.keywords:
+        import itertools
+        args = []
+        for a in e.args:
+            if isinstance(a, ast.Starred):
+                args.extend(ev(a.value, env))
+            else:
+                args.append(ev(a, env))
+        return list(itertools.product(*args))
+    if isinstance(e, ast.Call) and isinstance(e.func, ast.Name) and e.func.id == 'dict' and not e.args and not e.keywords:
+        return {}
+    if isinstance(e, ast.Call) and isinstance(e.func, ast.Attribute) and e.func.attr in ('append', 'extend') and not e.keywords:
+        recv = ev(e.func.value, env)
+        if isinstance(recv, list):        # comprehension evaluated for its effect on a list the code itself created
+            getattr(recv, e.func.attr)(*[ev(a, env) for a in e.args])
+            return None
     if isinstance(e, ast.Call) and isinstance(e.func, ast.Name) and e.func.id in _CALLS and not e.keywords:
         return _CALLS[e.func.id](*[ev(a, env) for a in e.args])
     if isinstance(e, ast.Call) and isinstance(e.func, ast.Attribute) and isinstance(e.func.value, ast.Name) and e.func.value.id == 're' \
@@ -151,7 +178,7 @@ def ev(e, env):
         return getattr(_re, e.func.attr)(*[ev(a, env) for a in e.args])   # the regular-expression engine applied to constant data
     if isinstance(e, ast.Call) and isinstance(e.func, ast.Attribute) and e.func.attr in (
             'startswith', 'endswith', 'lower', 'upper', 'find', 'rfind', 'index', 'partition', 'rpartition', 'strip', 'lstrip', 'rstrip', 'split',
-            'replace', 'isspace', 'count') and not e.keywords:
+            'replace', 'isspace', 'count', 'join') and not e.keywords:
         b = ev(e.func.value, env)
         if isinstance(b, str):
             return getattr(b, e.func.attr)(*[ev(a, env) for a in e.args])
@@ -185,9 +212,12 @@ def call_function(fdef, args, env=None):
     """Value returned by running the body of fdef (subset) with positional args bound to its parameters."""
     e = dict(env or {})
     params = [a.arg for a in fdef.args.args]
-    if len(params) != len(args):
+    defaults = fdef.args.defaults
+    if len(args) > len(params) or len(args) < len(params) - len(defaults):
         raise ModelError('minieval: call arity')
     e.update(zip(params, args))
+    for k in range(len(args), len(params)):       # parameters left to their default values
+        e[params[k]] = ev(defaults[k - (len(params) - len(defaults))], e)
     body = fdef.body
     if body and isinstance(body[0], ast.Expr) and isinstance(body[0].value, ast.Constant) and isinstance(body[0].value.value, str):
         body = body[1:]
@@ -205,6 +235,9 @@ def run(stmts, env):
             raise Returned(ev(st.value, env) if st.value is not None else None)
         if isinstance(st, ast.Expr) and isinstance(st.value, ast.Constant):
             continue
+        if isinstance(st, ast.Expr) and isinstance(st.value, (ast.ListComp, ast.GeneratorExp)):
+            ev(st.value, env)
+            continue
         if isinstance(st, ast.Expr) and isinstance(st.value, ast.Call) and isinstance(st.value.func, ast.Name) and st.value.func.id == 'print':
             continue
         if isinstance(st, ast.Expr) and isinstance(st.value, ast.Call) and isinstance(st.value.func, ast.Attribute) \
@@ -217,6 +250,12 @@ def run(stmts, env):
             if not isinstance(recv, (list, set)):
                 raise ModelError(f'minieval: {st.value.func.attr} on {type(recv).__name__}')
             getattr(recv, st.value.func.attr)(*[ev(a, env) for a in st.value.args])
+            continue
+        if isinstance(st, ast.Assign) and len(st.targets) == 1 and isinstance(st.targets[0], ast.Attribute):
+            base = ev(st.targets[0].value, env)
+            if not isinstance(base, NS):
+                raise ModelError('minieval: attribute store')
+            setattr(base, st.targets[0].attr, ev(st.value, env))
             continue
         if isinstance(st, ast.Assign) and len(st.targets) == 1 and isinstance(st.targets[0], ast.Subscript):
             base = ev(st.targets[0].value, env)
